@@ -29,6 +29,7 @@ import jsonpath_rfc9535 as jp
 from gen import docs as D
 
 from . import golden
+from . import monitor
 from . import sched
 from . import seeds
 from . import world
@@ -65,6 +66,8 @@ class Machine:
         self.graves: Dict[str, Any] = {"fn": set(), "env": set()}
         self.morgue: List[Any] = []  # roots of documents that died (see op_forget_doc)
         self.families: Dict[Any, Any] = {}  # base classes of environment families (world.make_env)
+        self._gc_at: Optional[int] = None  # armed collection (op_arm_gc)
+        self._orphans: List[Any] = []
         self.pinned_docs: set = set()  # documents other documents share objects with
         self._tl = threading.local()
         world.REENTRY_HOOK = self._reentry
@@ -162,7 +165,26 @@ class Machine:
         kind = op["op"]
         fn = getattr(self, "op_" + kind)
         before = self._fired()
-        ev = fn(op, actor) if kind == "iter_next" else fn(op)
+        gc_at = self._gc_at if actor is None else None
+        if gc_at is not None and kind in ("iter_next", "apply", "env_call", "iter_open", "iter_close", "compile"):
+            # a cyclic garbage collection at the k-th line the library executes inside this call:
+            # finalisers of abandoned iterators run there, in the middle of whatever the call is doing
+            self._gc_at = None
+            seen = [0]
+
+            def on_line(code: Any, line: int) -> Any:
+                seen[0] += 1
+                if seen[0] == gc_at:
+                    self.stats["probe_collection_inside_a_library_call"] += 1
+                    gc.collect()
+
+            monitor.switch_on(on_line, None)
+            try:
+                ev = fn(op, actor) if kind == "iter_next" else fn(op)
+            finally:
+                monitor.switch_off()
+        else:
+            ev = fn(op, actor) if kind == "iter_next" else fn(op)
         if self._fired() != before:
             self.stats["fault_fired_function_raise"] += self._fired() - before
         self.events.append([kind, ev] if actor is None else [actor, kind, ev])
@@ -358,7 +380,19 @@ class Machine:
             return "skip"
         name = op["name"]
         if name in e["obj"].function_extensions:
-            return "skip"  # additive registration only (late binding is by design)
+            if not op.get("override"):
+                return "skip"  # additive registration only, as a rule
+            # REPLACING a name (a built-in's, say): the library binds names at evaluation time by
+            # design, so what this environment compiled before now means something else -- those
+            # queries and their iterators are no longer judged.  Everything else is: other
+            # environments, the module-level functions, and new compiles on this one.
+            for cid in [k for k, c in self.compiled.items() if c["env"] == op["env"]]:
+                del self.compiled[cid]
+            for rec in self.iters.values():
+                if rec.get("env_id") == op["env"] and rec["state"] == "live":
+                    rec["faulted"] = True
+            self.seen_calls = [c for c in self.seen_calls if not (c["env_id"] == op["env"] and c["form"] == "compiled")]
+            self.stats["registrations_replacing_a_name"] += 1
         f = world.make_function(name, op["fspec"], e["obj"], self.graves)
         e["obj"].function_extensions[name] = f
         e["spec"]["funcs"].append([name, op["fspec"]])
@@ -395,6 +429,8 @@ class Machine:
         except Exception as exc_:  # noqa: BLE001
             c, exc = None, type(exc_).__name__
             self.stats[f"compile_error_{exc}"] += 1
+        if c is not None and not envspec.get("module"):
+            world.remember_compiled(e["obj"], c)
         self.compiled[op["id"]] = {"env": op["env"], "q": q, "obj": c, "exc": exc, "envspec": envspec}
         obs = {"nodes": [], "end": exc or "stop", "ident": True}
         form = "module" if envspec.get("module") else "env"
@@ -582,6 +618,25 @@ class Machine:
             self.stats["probe_closed_after_yielding"] += 1
         self._check_prefix(op["it"], rec)
         return [op["it"], len(rec["got"])]
+
+    def op_iter_orphan(self, op: Dict[str, Any]) -> Any:
+        """The caller loses its last reference to a half-consumed iterator that sits in a reference
+        cycle: it stays alive (suspended wherever it is) until a cyclic collection finalises it."""
+        rec = self.iters.get(op["it"])
+        if rec is None or rec["state"] != "live" or rec.get("busy"):
+            return "skip"
+        cell: List[Any] = [rec["it"]]
+        cell.append(cell)
+        del cell
+        rec["it"] = None
+        rec["state"] = "dropped"
+        self.stats["iters_orphaned_in_a_reference_cycle"] += 1
+        self._check_prefix(op["it"], rec)
+        return [op["it"], len(rec["got"])]
+
+    def op_arm_gc(self, op: Dict[str, Any]) -> Any:
+        self._gc_at = int(op["k"])
+        return "ok"
 
     def op_iter_drop(self, op: Dict[str, Any]) -> Any:
         rec = self.iters.get(op["it"])
